@@ -141,6 +141,14 @@ func main() {
 		os.Exit(2)
 	}
 	dom := os.Args[1]
+	if dom == "crashchild" {
+		crashChildMain(os.Args[2:])
+		return
+	}
+	if dom == "credchild" {
+		credChildMain(os.Args[2:])
+		return
+	}
 	fs := flag.NewFlagSet(dom, flag.ExitOnError)
 	seed := fs.Int64("seed", 1, "PRNG seed")
 	tier := fs.String("tier", "quick", "quick|thorough")
